@@ -257,6 +257,8 @@ func genC04(rng *Rng, thorough bool, emit func(*Scenario)) {
 		}
 		emit(sc)
 	}
+	genStale("c04-stale", rng, false, emit)
+	genSlowSilence(rng, thorough, emit)
 }
 
 // ---------- C05 ----------
@@ -313,6 +315,7 @@ func genC05(rng *Rng, thorough bool, emit func(*Scenario)) {
 			emit(sc)
 		}
 	}
+	genStale("c05-stale", rng, true, emit)
 }
 
 // ---------- C06 ----------
@@ -492,4 +495,5 @@ func genC06(rng *Rng, thorough bool, emit func(*Scenario)) {
 		}
 		emit(sc)
 	}
+	genRepetition(rng, emit)
 }
